@@ -751,6 +751,12 @@ bool JareckiLysyanskayaRVSS::Share
 					cnt++;
 				}
 				while (cnt <= n);
+				// a dealer who does not answer every complaint is excluded as well
+				if (cnt < complaints_counter[j])
+				{
+					err << "P_" << i << ": not all complaints answered in 1(c); complaint against P_" << j << std::endl;
+					complaints.push_back(j);
+				}
 			}
 		}
 		Qual.clear();
